@@ -285,6 +285,34 @@ theorem setStr_yes_missing (b : Binds) (st : Store) (locked : Bool) (k : String)
     (hk : b.lookup k = none) : setStr b st locked .yes k value vals = .error .key := by
   simp [setStr, convertInplace, hk]
 
+/-- **`update_`** never binds anything (its result is a store only), writes exactly the entries whose key
+the source shares with the destination — each through the destination's existing leaf, so
+`inplace_keeps_bindings` applies to them —, ignores unknown source keys next to a known one and raises
+KeyError when no key is shared -/
+theorem updateInplace_spec (b : Binds) (st : Store) (src : List (String × List Val)) :
+    (∀ st', updateInplace b st src = .ok st' →
+        st' = inplaceWrites b st (src.filter (fun p => (b.lookup p.1).isSome))) ∧
+    (src ≠ [] → (∀ p ∈ src, b.lookup p.1 = none) → updateInplace b st src = .error .key) := by
+  constructor
+  · intro st' h
+    unfold updateInplace at h
+    by_cases hc : (src.filter (fun p => (b.lookup p.1).isSome)).isEmpty = true
+    · have hnil : src.filter (fun p => (b.lookup p.1).isSome) = [] := by simpa using hc
+      by_cases hs : src.isEmpty = true
+      · simp only [hc, hs, if_true] at h
+        have h' : st = st' := by simpa using h
+        subst h'; simp [hnil, inplaceWrites]
+      · simp [hc, hs] at h
+    · simp only [hc] at h
+      have h' : inplaceWrites b st (src.filter (fun p => (b.lookup p.1).isSome)) = st' := by simpa using h
+      exact h'.symm
+  · intro hne hall
+    have : src.filter (fun p => (b.lookup p.1).isSome) = [] := by
+      apply List.filter_eq_nil_iff.mpr
+      intro p hp; simp [hall p hp]
+    unfold updateInplace
+    simp [this, hne]
+
 /-- **basic indexing is a view, advanced indexing a copy**: one advanced item anywhere in the index makes
 the result a copy; an index made of integers, slices, `None`, `...` and 0-d integer tensors is a view -/
 theorem indexClass_spec (ix : List IxItem) :
